@@ -74,6 +74,7 @@ def _task(args):
     for k in core.FLAGS.obligations:
         core.FLAGS.obligations[k] = 0
     core.FLAGS.check_dtype = flags.get("check_dtype", False)
+    core.FLAGS.wrap_narrow = flags.get("wrap_narrow", False)
     core.FLAGS.argsort_all_ties = flags.get("argsort_all_ties", True)
     core.FLAGS.track_dtypes = flags.get("track_dtypes", False)
     E.loop_budget = flags.get("loop_budget", 2000)
